@@ -328,7 +328,10 @@ class Project:
     def _scan_toplevel(self, m, node):
         if isinstance(node, ast.Import):
             for a in node.names:
-                m.imports[a.asname or a.name.split(".")[0]] = (a.name, None)
+                if a.asname:
+                    m.imports[a.asname] = (a.name, None)
+                else:
+                    m.imports[a.name.split(".")[0]] = (a.name.split(".")[0], None)
         elif isinstance(node, ast.ImportFrom):
             for a in node.names:
                 if a.name == "*":
